@@ -19,6 +19,7 @@ def plan(tier, seed, excl):
     t = [('catalogue-scalars', {'ver': v, 'shard': i, 'of': 2}) for v in ('2.0', '3.0') for i in range(2)]
     t += [('catalogue-grids', {'shard': i, 'of': 4}) for i in range(4)]
     t += [('scalars', {'shard': i, 'n': 4000 if q else 60000}) for i in range(8)]
+    t += [('sizes', {'shard': i, 'of': 8, 'tier': tier}) for i in range(8)]
     t += [('grids', {'shard': i, 'n': 2500 if q else 30000}) for i in range(16)]
     return t
 
